@@ -329,8 +329,25 @@ def stream_guards(ctx, R="R-C11-stream-guards"):
     ev = SymEval(prog, f, inline_props=False).run()
     is_str = S.call("isinstance", S.sym(rf), S.sym("str"))
 
+    def plain(x):
+        """bool(isinstance(..)) is isinstance(..); not not y is y (a flag `is_stream = not isinstance(..)` tested by truth value)"""
+        if not isinstance(x, S.E):
+            return x
+        if x.op == "bool" and len(x.args) == 1 and isinstance(x.args[0], S.E) and (x.args[0] == is_str or x.args[0].op in ("not", "cmp", "and", "or")):
+            return plain(x.args[0])
+        if x.op == "not" and len(x.args) == 1:
+            inner = plain(x.args[0])
+            if isinstance(inner, S.E) and inner.op == "not":
+                return plain(inner.args[0])
+            return S.E("not", inner) if inner is not x.args[0] else x
+        return x
+
     def conj(g):
-        return list(g.args) if g.op == "and" else [g]
+        out = []
+        for x in (list(g.args) if g.op == "and" else [g]):
+            x = plain(x)
+            out += list(x.args) if isinstance(x, S.E) and x.op == "and" else [x]
+        return out
 
     def stream_side(g):
         return any(x == S.enot(is_str) or x == S.E("not", is_str) for x in conj(g))
